@@ -135,6 +135,13 @@ class DictDecoder:
                 continue
 
             if var.wrapper:
+                if self.config.fail_on_unknown_properties:
+                    for name in value:
+                        if name != var.local_name:
+                            raise ParserError(
+                                f"Unknown property {clazz.__qualname__}.{key}.{name}"
+                            )
+
                 value = value[var.local_name]
 
             value = self.bind_value(meta, var, value)
